@@ -232,6 +232,8 @@ fn transform(
     let decimals = options.decimals.unwrap_or_else(|| {
         *GUESSED_DECIMALS.get_or_init(|| if operands[0][0] > 1000. { 5 } else { 10 })
     });
+    // The precision of a format specification is limited to 16 bits
+    let decimals = decimals.min(u16::MAX as usize);
 
     // Finally output the transformed coordinates
     for coord in operands {
